@@ -15,6 +15,7 @@ func ShiftSigned(a uint64, n int) uint64 { return a << uint(n) }
 
 func Closure(a int) int {
 	f := func(x int) int { return x + a }
+	a = 5
 	return f(1)
 }
 
